@@ -46,6 +46,12 @@ type Lval struct {
 type State struct {
 	ep   map[string]int
 	comp map[string]string
+	// base: for each component, the version as of the last write that may have touched an
+	// object existing at function entry ("old region"). Writes proved to hit objects
+	// allocated in this activation leave it alone; heap-dependent spec symbols applied to
+	// old-region arguments are named after it, so facts about the pre-existing heap
+	// survive work on fresh objects.
+	base map[string]string
 }
 
 func isGhostComp(c string) bool { return strings.HasPrefix(c, "Ghost$") }
@@ -96,9 +102,12 @@ func (s *State) sameEpochs(o *State) bool {
 }
 
 func (s *State) clone() *State {
-	n := &State{ep: make(map[string]int, len(s.ep)), comp: make(map[string]string, len(s.comp))}
+	n := &State{ep: make(map[string]int, len(s.ep)), comp: make(map[string]string, len(s.comp)), base: make(map[string]string, len(s.base))}
 	for k, v := range s.ep {
 		n.ep[k] = v
+	}
+	for k, v := range s.base {
+		n.base[k] = v
 	}
 	for k, v := range s.comp {
 		n.comp[k] = v
@@ -156,6 +165,9 @@ type FnVC struct {
 	extraAssume []string // known-finding guards: assumed at entry
 	unmodelled map[string]bool
 	constCapture map[ssa.Value]TV
+	usesSliceTag bool
+	compValType map[string]types.Type
+	axiomDone map[string]bool
 	nonNilAt map[string][]*ssa.BasicBlock
 	nonNilGlobals []string
 	usedNonNil map[*ssa.Global]bool
@@ -188,7 +200,7 @@ func newFnVC(p *Prog, fn *ssa.Function, fc *FuncContract, id string) *FnVC {
 		vals: map[ssa.Value]Val{}, reach: map[*ssa.BasicBlock]string{}, out: map[*ssa.BasicBlock]*State{},
 		compSort: map[string]string{}, params: map[string]Val{}, freshRef: map[string]bool{},
 		loops: map[*ssa.BasicBlock]*loopInfo{}, backEdge: map[[2]*ssa.BasicBlock]bool{}, oblNames: map[string]int{},
-		rangeSeen: map[*ssa.Range]string{}, unmodelled: map[string]bool{}, constCapture: map[ssa.Value]TV{}, keyTerms: map[string][]string{}, faComps: map[string]faInfo{}, usedNonNil: map[*ssa.Global]bool{}, nonNilAt: map[string][]*ssa.BasicBlock{}}
+		rangeSeen: map[*ssa.Range]string{}, unmodelled: map[string]bool{}, constCapture: map[ssa.Value]TV{}, keyTerms: map[string][]string{}, faComps: map[string]faInfo{}, usedNonNil: map[*ssa.Global]bool{}, nonNilAt: map[string][]*ssa.BasicBlock{}, axiomDone: map[string]bool{}, compValType: map[string]types.Type{}}
 	if fn.Pkg != nil {
 		vc.pkg = fn.Pkg.Pkg
 	} else if fn.Parent() != nil && fn.Parent().Pkg != nil {
@@ -196,7 +208,7 @@ func newFnVC(p *Prog, fn *ssa.Function, fc *FuncContract, id string) *FnVC {
 	} else if o := fn.Origin(); o != nil && o.Pkg != nil {
 		vc.pkg = o.Pkg.Pkg
 	}
-	vc.entry = &State{ep: map[string]int{}, comp: map[string]string{}}
+	vc.entry = &State{ep: map[string]int{}, comp: map[string]string{}, base: map[string]string{}}
 	if fc != nil {
 		for _, cls := range [][]*Clause{fc.Requires, fc.Ensures} {
 			for _, cl := range cls {
@@ -309,8 +321,53 @@ func (vc *FnVC) compInit(st *State, comp string) string {
 		panic("internal: component " + comp + " has no sort")
 	}
 	name := fmt.Sprintf("%s!e%d", comp, st.epochOf(comp))
-	vc.enc.declConst(name, sort)
+	if !vc.enc.declared[name] {
+		vc.enc.declConst(name, sort)
+		if st.epochOf(comp) == 0 {
+			vc.closureAxiom(comp, name)
+		}
+	}
 	return name
+}
+
+// closureAxiom: the heap at function entry is closed - an object that exists at entry only
+// refers to objects that exist at entry (references stored in it are <= the entry allocation
+// counter; boxed scalars are <= 0 by construction of the box functions).
+func (vc *FnVC) closureAxiom(comp, name string) {
+	t := vc.compValType[comp]
+	if t == nil || comp == "alloc" {
+		return
+	}
+	a0 := "alloc!e0"
+	vc.enc.declConst(a0, sInt)
+	closed := func(v string) string {
+		switch t.Underlying().(type) {
+		case *types.Pointer, *types.Map, *types.Signature, *types.Chan:
+			return "(<= " + v + " " + a0 + ")"
+		case *types.Slice:
+			return "(<= (sl-arr " + v + ") " + a0 + ")"
+		case *types.Interface:
+			return "(<= (if-data " + v + ") " + a0 + ")"
+		}
+		return ""
+	}
+	sort := vc.compSort[comp]
+	switch {
+	case strings.HasPrefix(comp, "F$") || strings.HasPrefix(comp, "Cell$"):
+		if c := closed("(select " + name + " r)"); c != "" {
+			vc.enc.header = append(vc.enc.header, "(assert (forall ((r Int)) (! (=> (<= r "+a0+") "+c+") :pattern ((select "+name+" r)))))")
+		}
+	case strings.HasPrefix(comp, "Elem$"):
+		if c := closed("(select (select " + name + " r) i)"); c != "" {
+			vc.enc.header = append(vc.enc.header, "(assert (forall ((r Int) (i Int)) (! (=> (<= r "+a0+") "+c+") :pattern ((select (select "+name+" r) i)))))")
+		}
+	case strings.HasPrefix(comp, "MV$"):
+		_, inner := arrayParts(sort)
+		ks, _ := arrayParts(inner)
+		if c := closed("(select (select " + name + " r) k)"); c != "" {
+			vc.enc.header = append(vc.enc.header, "(assert (forall ((r Int) (k "+ks+")) (! (=> (<= r "+a0+") "+c+") :pattern ((select (select "+name+" r) k)))))")
+		}
+	}
 }
 
 func (vc *FnVC) regComp(comp, sort string) {
@@ -335,11 +392,42 @@ func (vc *FnVC) setComp(st *State, comp, term string) {
 	n := vc.enc.freshConst(comp, vc.compSort[comp])
 	vc.emit(eq(n, term))
 	st.comp[comp] = n
+	st.base[comp] = n
+}
+
+// setCompFresh: a write known to hit an object allocated in this activation.
+func (vc *FnVC) setCompFresh(st *State, comp, term string) {
+	b := vc.curBase(st, comp)
+	n := vc.enc.freshConst(comp, vc.compSort[comp])
+	vc.emit(eq(n, term))
+	st.comp[comp] = n
+	st.base[comp] = b
+}
+
+func (vc *FnVC) setCompF(st *State, comp, term string, fresh bool) {
+	if fresh {
+		vc.setCompFresh(st, comp, term)
+	} else {
+		vc.setComp(st, comp, term)
+	}
+}
+
+// curBase: the old-region version of a component.
+func (vc *FnVC) curBase(st *State, comp string) string {
+	if v, ok := st.base[comp]; ok {
+		return v
+	}
+	if _, explicit := st.comp[comp]; explicit {
+		// written only through paths that did not record a base (merges): the current version
+		return st.comp[comp]
+	}
+	return vc.compInit(st, comp)
 }
 
 func (vc *FnVC) havocComp(st *State, comp string) string {
 	n := vc.enc.freshConst(comp, vc.compSort[comp])
 	st.comp[comp] = n
+	st.base[comp] = n
 	return n
 }
 
@@ -365,9 +453,14 @@ func (vc *FnVC) havocAll(st *State, keep ...string) {
 		}
 	}
 	st.comp = map[string]string{}
+	oldBase := st.base
+	st.base = map[string]string{}
 	for k, v := range old {
 		if kept[compClass(k)] {
 			st.comp[k] = v
+			if b, ok := oldBase[k]; ok {
+				st.base[k] = b
+			}
 		}
 	}
 	defer func() {
@@ -401,6 +494,9 @@ func typeTok(t types.Type) string {
 		}
 		return sanitize(x.Name())
 	case *types.Interface:
+		if n := namedOf(t); n != nil && x.NumMethods() > 0 {
+			return typeShort(n)
+		}
 		return "iface"
 	case *types.Signature:
 		return "func"
@@ -414,6 +510,7 @@ func (vc *FnVC) fieldComp(structT types.Type, idx int) (comp, sort string, fty t
 	f := st.Field(idx)
 	comp = "F$" + typeShort(structT) + "$" + f.Name()
 	sort = vc.enc.sortOf(f.Type())
+	vc.compValType[comp] = f.Type()
 	vc.regComp(comp, arraySort(sInt, sort))
 	return comp, sort, f.Type()
 }
@@ -421,6 +518,7 @@ func (vc *FnVC) fieldComp(structT types.Type, idx int) (comp, sort string, fty t
 func (vc *FnVC) cellComp(t types.Type) (comp, sort string) {
 	sort = vc.enc.sortOf(t)
 	comp = "Cell$" + typeTok(t)
+	vc.compValType[comp] = t
 	vc.regComp(comp, arraySort(sInt, sort))
 	return
 }
@@ -428,6 +526,7 @@ func (vc *FnVC) cellComp(t types.Type) (comp, sort string) {
 func (vc *FnVC) elemComp(t types.Type) (comp, sort string) {
 	sort = vc.enc.sortOf(t)
 	comp = "Elem$" + typeTok(t)
+	vc.compValType[comp] = t
 	vc.regComp(comp, arraySort(sInt, arraySort(sInt, sort)))
 	return
 }
@@ -437,6 +536,7 @@ func (vc *FnVC) mapComps(m *types.Map) (mh, mv, ks, vs string) {
 	vs = vc.enc.sortOf(m.Elem())
 	mh = "MH$" + typeTok(m.Key()) + "$" + typeTok(m.Elem())
 	mv = "MV$" + typeTok(m.Key()) + "$" + typeTok(m.Elem())
+	vc.compValType[mv] = m.Elem()
 	vc.regComp(mh, arraySort(sInt, arraySort(ks, sBool)))
 	vc.regComp(mv, arraySort(sInt, arraySort(ks, vs)))
 	vc.regComp("ML", arraySort(sInt, sInt))
@@ -457,6 +557,16 @@ func (vc *FnVC) globalComp(g *ssa.Global) (comp, sort string) {
 			vc.usedNonNil[g] = true
 			vc.emit(not(eq(comp+"!e0", vc.enc.zeroOfSort(sort, t))))
 			vc.enc.declConst(comp+"!e0", sort)
+			if tn, ok := vc.prog.cs.GlobalTypes[g.Pkg.Pkg.Path()+"::"+g.Name()]; ok && sort == sIface {
+				te, err := parseTypeString(tn)
+				if err != nil {
+					panic(unsupported("global type " + tn))
+				}
+				env := vc.newEnv(vc.entry, vc.entry)
+				env.pkg = g.Pkg.Pkg
+				dt, _ := env.resolveType(te)
+				vc.emit(eq("(if-tag "+comp+"!e0)", fmt.Sprint(vc.prog.typeTag(dt))))
+			}
 		}
 	}
 	return
@@ -489,17 +599,18 @@ func (vc *FnVC) loadLv(st *State, lv *Lval) string {
 	return sel(sel(c, lv.ref), lv.idx)
 }
 
-func (vc *FnVC) storeLv(st *State, lv *Lval, v string) {
+func (vc *FnVC) storeLv(st *State, lv *Lval, v string, fresh ...bool) {
+	fr := len(fresh) > 0 && fresh[0]
 	c := vc.cur(st, lv.comp)
 	if lv.idx == "" {
 		if lv.ref == "" {
 			vc.setComp(st, lv.comp, v)
 			return
 		}
-		vc.setComp(st, lv.comp, sto(c, lv.ref, v))
+		vc.setCompF(st, lv.comp, sto(c, lv.ref, v), fr)
 		return
 	}
-	vc.setComp(st, lv.comp, sto(c, lv.ref, sto(sel(c, lv.ref), lv.idx, v)))
+	vc.setCompF(st, lv.comp, sto(c, lv.ref, sto(sel(c, lv.ref), lv.idx, v)), fr)
 }
 
 // typeInv returns the representation invariant of a value of Go type t.
